@@ -301,8 +301,6 @@ func (g *Graph) removeLine(fid, tid, id int64) {
 	if len(g.to[tid][fid]) == 0 {
 		delete(g.to[tid], fid)
 	}
-
-	g.ids.Release(id)
 }
 
 // removeNode removes the node with the given ID from the graph, as well as
@@ -322,8 +320,19 @@ func (g *Graph) removeNode(id int64) {
 		delete(g.from[to], id)
 	}
 	delete(g.to, id)
+}
 
-	g.ids.Release(id)
+// releaseTerm releases the ID of t and forgets its text if t is no longer
+// a node or a predicate of the graph.
+func (g *Graph) releaseTerm(t Term) {
+	if _, ok := g.nodes[t.UID]; ok {
+		return
+	}
+	if _, ok := g.pred[t.UID]; ok {
+		return
+	}
+	g.ids.Release(t.UID)
+	delete(g.termIDs, t.Value)
 }
 
 // RemoveStatement removes s from the graph, leaving the terminal nodes if they
@@ -339,20 +348,17 @@ func (g *Graph) RemoveStatement(s *Statement) {
 	delete(statements, s)
 	if len(statements) == 0 {
 		delete(g.pred, s.Predicate.UID)
-		if len(g.from[s.Predicate.UID]) == 0 {
-			g.ids.Release(s.Predicate.UID)
-			delete(g.termIDs, s.Predicate.Value)
-		}
+		g.releaseTerm(s.Predicate)
 	}
 
 	// Remove any orphan terms.
 	if g.From(s.Subject.UID).Len() == 0 && g.To(s.Subject.UID).Len() == 0 {
 		g.removeNode(s.Subject.UID)
-		delete(g.termIDs, s.Subject.Value)
+		g.releaseTerm(s.Subject)
 	}
 	if g.From(s.Object.UID).Len() == 0 && g.To(s.Object.UID).Len() == 0 {
 		g.removeNode(s.Object.UID)
-		delete(g.termIDs, s.Object.Value)
+		g.releaseTerm(s.Object)
 	}
 }
 
@@ -393,7 +399,7 @@ func (g *Graph) RemoveTerm(t Term) {
 
 	// Remove the node.
 	g.removeNode(t.UID)
-	delete(g.termIDs, t.Value)
+	g.releaseTerm(t)
 }
 
 // setLine adds l, a line from one node to another. If the nodes do not exist,
